@@ -3,16 +3,19 @@
 (* x position for the optional constructs ==nil, !=nil, get, or, ?=.             *)
 EXTENDS Ast, TLC, Json
 
-Carriers == {"var", "param", "result", "elem", "field"}
+Carriers == {"var", "param", "result", "elem", "field", "indexof"}
 Types == {"int", "str", "list"}
 Uses == {"eqnil", "nenil", "get", "or", "orlit", "unwrap_if", "unwrap_stmt", "unwrap_print",
-         "unwrap_while", "eqval", "getuse", "orchain", "unwrap_nested", "unwrap_twice", "unwrap_nested_twice", "or_closure"}
+         "unwrap_while", "eqval", "getuse", "orchain", "unwrap_nested", "unwrap_twice", "unwrap_nested_twice", "or_closure", "or_use", "get_use"}
 Positions == {"stmt", "inif", "inwhile", "infn"}
 
 (* excluded: an int captured by a function literal is refused as a list index by the type   *)
 (* checker (unrelated limitation); == between an optional list and a list literal is not   *)
 (* an operation of the language                                                            *)
-Valid(s) == ~(s.carrier = "elem" /\ s.pos = "infn") /\ ~(s.carrier = "field" /\ s.pos = "infn") /\ ~(s.ty = "list" /\ s.use = "eqval")
+Valid(s) == /\ ~(s.ty = "list" /\ s.use = "or_use")      \* `==` between lists of optional provenance: see eqval
+            /\ ~(s.carrier = "elem" /\ s.pos = "infn") /\ ~(s.carrier = "field" /\ s.pos = "infn")
+            \* the result of a built-in (`index_of`: a *wrapped* optional at run time); its value is an int
+            /\ (s.carrier = "indexof" => s.ty = "int" /\ s.pos # "infn") /\ ~(s.ty = "list" /\ s.use = "eqval")
 Scenarios == {s \in [carrier : Carriers, ty : Types, present : BOOLEAN, use : Uses, pos : Positions] : Valid(s)}
 
 VARIABLE sc
@@ -33,6 +36,7 @@ Setup(s) ==
                           <<Print(S("mk")), If(V("b"), <<Ret(Val(s.ty))>>), Ret(Nil)>>))>>
       [] s.carrier = "elem" -> <<LetT("xs", "[" \o Opt(s.ty) \o "...]", List(<<Nil, Val(s.ty)>>)),
                                  Let("k", I(IF s.present THEN 1 ELSE 0))>>
+      [] s.carrier = "indexof" -> <<LetT("hs", "[int...]", List(<<I(7), I(5)>>))>>
       \* an optional field of an object
       [] s.carrier = "field" ->
            <<[k |-> "class", n |-> "Holder", export |-> FALSE, fields |-> <<[n |-> "f", ty |-> Opt(s.ty)]>>,
@@ -44,6 +48,7 @@ E(s) == CASE s.carrier = "var" -> V("v")
           [] s.carrier = "result" -> Call(V("mk"), <<B(s.present)>>)
           [] s.carrier = "elem" -> Idx(V("xs"), V("k"))
           [] s.carrier = "field" -> Fld(V("h"), "f")
+          [] s.carrier = "indexof" -> MCall(V("hs"), "index_of", <<I(IF s.present THEN 5 ELSE 99)>>)
 
 DeclW(s) == LetT("w", Opt(s.ty), Nil)
 Dflt(s) == Let("dflt", Fn("dflt", <<>>, TyText(s.ty), <<Print(S("dflt")), Ret(Val2(s.ty))>>))
@@ -62,6 +67,16 @@ UseStmts(s) ==
              Let("pk", Call(V("mkp"), <<>>)),
              LetT("held", Opt(s.ty), E(s)),
              Print(Call(V("pk"), <<V("held")>>))>>
+      \* the value of `or` / `get` is used as a plain value of the base type (operand, condition)
+      [] s.use = "or_use" ->
+           <<Print(CASE s.ty = "int" -> Bin("+", Or(E(s), Call(V("dflt"), <<>>)), I(1))
+                     [] s.ty = "str" -> Bin("+", Or(E(s), Call(V("dflt"), <<>>)), S("!"))
+                     [] s.ty = "list" -> MCall(Or(E(s), Call(V("dflt"), <<>>)), "len", <<>>)),
+             If(Bin("==", Or(E(s), Call(V("dflt"), <<>>)), Val(s.ty)), <<Print(S("same"))>>)>>
+      [] s.use = "get_use" ->
+           <<Print(CASE s.ty = "int" -> Bin("*", Get(E(s)), I(2))
+                     [] s.ty = "str" -> Bin("+", Get(E(s)), S("!"))
+                     [] s.ty = "list" -> MCall(Get(E(s)), "len", <<>>))>>
       [] s.use = "orlit" -> <<Print(Or(E(s), Val2(s.ty)))>>
       [] s.use = "orchain" -> <<Print(Or(E(s), Or(E(s), Call(V("dflt"), <<>>))))>>
       [] s.use = "unwrap_if" -> <<DeclW(s), IfElse(UnwrapInto("w", E(s)), <<Print(V("w"))>>, <<Print(S("none"))>>),
